@@ -59,8 +59,16 @@ fn run_varying<'a>(c: &Case, lpf_of: &dyn Fn(usize) -> &'a [f64]) -> Vec<f64> {
     let spectrum = [0.0, 0.0];
     let mut v = Vocoder::new(2, lpf_of(0).len(), 0, false, c.rate, 0.0, 0.0, 1.0, c.fperiod);
     let mut out = vec![0.0; c.fperiod * c.lf0.len()];
+    // in about half of the cases the utterance is finished by a CLONE of the vocoder taken at a
+    // frame boundary (the frame index is a function of the case): a clone carries the whole state
+    // - pitch counter, noise generator, pending low-pass tails - and must continue identically
+    let clone_at = (c.fperiod * 7 + c.rate / 1000) % (2 * c.lf0.len().max(1));
     for (f, l) in c.lf0.iter().enumerate() {
         let lf0 = l.unwrap_or(NODATA);
+        if f > 0 && f == clone_at {
+            let copy = v.clone();
+            v = copy;
+        }
         v.synthesize(lf0, &spectrum, lpf_of(f), &mut out[f * c.fperiod..(f + 1) * c.fperiod]);
     }
     out
